@@ -60,7 +60,11 @@ Inductive case :=
 | CConn (creds : list string) (tab : list (string * aca_result)) (secrets : list string) (sent : list sent_req)
 (* keepstore remoteProxy.Get for a locator with a +R<remote>-... hint, the caller's token in the Authorization
    header; the keep client of the remote cluster has a recording HTTP client: every request it sends *)
-| CKsGet (token remote : string) (sent : list sent_req).
+| CKsGet (token remote : string) (sent : list sent_req)
+(* two overlapping remoteProxy.Get calls for the same remote (one cached keep client per remote): while
+   caller A's first attempt is at the remote keep service, caller B's whole request runs; then A's attempt is
+   answered 503 and A goes on to the next keep service.  sent_a / sent_b: what was sent on behalf of each *)
+| CKsPair (token_a token_b remote : string) (sent_a sent_b : list sent_req).
 
 (* ---------- boolean specification ---------- *)
 (* reading a token as the property text does *)
@@ -201,6 +205,22 @@ Definition ks_secrets (token : string) : list string :=
   | _ => []
   end.
 
+(* ... and every request sent on behalf of a caller bears "OAuth2 t" with t what SaltToken makes of that
+   caller's token for this remote (spec_remote_k) -- never another caller's token, never an unsaltable one *)
+Fixpoint strip_prefix (p s : string) : option string :=
+  match p, s with
+  | EmptyString, _ => Some s
+  | String a p', String b s' => if Ascii.eqb a b then strip_prefix p' s' else None
+  | String _ _, EmptyString => None
+  end.
+Definition ks_auth_ok_k (hm : hmfun) (token remote : string) (sent : list sent_req) : bool :=
+  forallb (fun q => match strip_prefix "OAuth2 " (snd (fst q)) with
+                    | Some t => spec_remote_k hm token remote (Some t)
+                    | None => false
+                    end) sent.
+Definition spec_ksget_k (hm : hmfun) (secrets : list string) (token remote : string) (sent : list sent_req) : bool :=
+  clean_b secrets (all_parts sent) && ks_auth_ok_k hm token remote sent.
+
 Definition spec_k (hm : hmfun) (c : case) : bool :=
   match c with
   | CSalt token remote o => spec_salt_k hm token remote o
@@ -210,7 +230,10 @@ Definition spec_k (hm : hmfun) (c : case) : bool :=
   | CStack r dbt secrets sent => clean_b secrets (all_parts sent)
   | CCrc local remotes target creds tab rt aca user o_sent o_auth o_rt wire => spec_crc_b local creds rt aca o_sent o_rt wire
   | CConn creds tab secrets sent => clean_b secrets (all_parts sent)
-  | CKsGet token remote sent => clean_b (ks_secrets token) (all_parts sent)
+  | CKsGet token remote sent => spec_ksget_k hm (ks_secrets token) token remote sent
+  | CKsPair token_a token_b remote sent_a sent_b =>
+    spec_ksget_k hm (ks_secrets token_a ++ ks_secrets token_b) token_a remote sent_a &&
+    spec_ksget_k hm (ks_secrets token_a ++ ks_secrets token_b) token_b remote sent_b
   end.
 
 (* ---------- known finding F6b (legacy saltAuthToken) ----------
@@ -281,6 +304,12 @@ Definition conn_auth_k (hm : hmfun) (lookup : string -> aca_result) (creds : lis
   | None => false
   end.
 
+Definition ksget_model_k (hm : hmfun) (token remote : string) (sent : list sent_req) : bool :=
+  match remote_client_k hm token remote with
+  | Some t => forallb (fun q => String.eqb (snd (fst q)) ("OAuth2 " ++ t)) sent
+  | None => match sent with [] => true | _ => false end
+  end.
+
 Definition model_k (hm : hmfun) (c : case) : bool :=
   match c with
   | CSalt token remote o => res_eqb o (salt_token_k hm token remote)
@@ -308,11 +337,10 @@ Definition model_k (hm : hmfun) (c : case) : bool :=
     end
   | CConn creds tab secrets sent =>
     forallb (fun q => conn_auth_k hm (tab_get tab) creds (fst (fst q)) (snd (fst q))) sent
-  | CKsGet token remote sent =>
-    match remote_client_k hm token remote with
-    | Some t => forallb (fun q => String.eqb (snd (fst q)) ("OAuth2 " ++ t)) sent
-    | None => match sent with [] => true | _ => false end
-    end
+  | CKsGet token remote sent => ksget_model_k hm token remote sent
+  | CKsPair token_a token_b remote sent_a sent_b =>
+    (* A is sent to both keep services (its salting succeeding), B to both as well *)
+    ksget_model_k hm token_a remote sent_a && ksget_model_k hm token_b remote sent_b
   end.
 
 Definition spec_b (c : case) : bool := spec_k hmac_sha1_hex c.
@@ -363,6 +391,8 @@ Definition needs (c : case) : list (string * string) :=
   | CConn creds tab secrets sent =>
     flat_map (fun q => flat_map (tok_needs (tab_get tab) (fst (fst q))) creds) sent
   | CKsGet token remote sent => tok_needs (fun _ => AcaError) remote token
+  | CKsPair token_a token_b remote _ _ =>
+    (tok_needs (fun _ => AcaError) remote token_a ++ tok_needs (fun _ => AcaError) remote token_b)%list
   end.
 
 (* result code per case: 0 ok; +1 model/implementation mismatch; +2 observed behaviour violates the
